@@ -33,6 +33,7 @@ def cases(tier, rng):
                 "pml": ["some", None, "all"][i % 3],
                 "n_partitions": 2 if tier == "quick" else 4,
                 "n_histories": 2 if tier == "quick" else 4,
+                "dispersive": bool((i // 3 + i) % 3 == 1),
             }
         )
     return out
@@ -56,6 +57,10 @@ def _tree_np(arrays):
         d[f"psiE/{nm}/0"], d[f"psiE/{nm}/1"] = np.asarray(a), np.asarray(b)
     for nm, (a, b) in arrays.fields.psi_H.items():
         d[f"psiH/{nm}/0"], d[f"psiH/{nm}/1"] = np.asarray(a), np.asarray(b)
+    for nm in ("dispersive_P_curr", "dispersive_P_prev"):
+        v = getattr(arrays.fields, nm, None)
+        if v is not None:
+            d[f"{nm}"] = np.asarray(v)
     for dn, st in arrays.detector_states.items():
         for k, v in st.items():
             d[f"det/{dn}/{k}"] = np.asarray(v)
@@ -99,6 +104,16 @@ def _one(sc, r):
         grid=("uniform", "uniform", "rect"),
     )
     meta = scene["meta"]
+    # every third scene carries a (stable) dispersive box: the polarisation state is part of what a split run hands on
+    meta["dispersive"] = bool(sc.get("dispersive", False))
+    if meta["dispersive"]:
+        dtn = 0.99 * 50e-9 / (np.sqrt(3.0) * 299792458.0)
+        ilo, ihi = scenes.interior_box(scene)
+        poles = [{"kind": "lorentz", "w0": 0.3 / dtn, "gamma": 0.05 / dtn, "deps": 1.0}, {"kind": "drude", "wp": 0.1 / dtn, "gamma": 0.02 / dtn}]
+        scene["materials"].append(
+            {"lo": [max(l, h - 3) for l, h in zip(ilo, ihi)], "hi": list(ihi), "mat": {"eps": 2.0, "dispersion": {"poles": poles[: int(rng.integers(1, 3))]}}, "order": 5}
+        )
+    r.branch("dispersive_scene" if meta["dispersive"] else "non_dispersive_scene")
     built = scenes.build(scene)
     objects, config, arrays0 = built["objects"], built["config"], built["arrays"]
     key = jax.random.PRNGKey(11)
